@@ -23,7 +23,7 @@ theorem cleanerStep_query {fs : FS} {t : Th} (h1 : 2 ≤ t.pc) (h2 : t.pc ≤ 19
   unfold cleanerStep
   simp only []
   split
-  case h_27 =>
+  case h_28 =>
     by_cases hA : 2 ≤ t.pc ∧ t.pc ≤ 10
     · rw [if_pos hA, if_pos hA]; rfl
     · rw [if_neg hA, if_neg hA, if_pos (hB hA)]; rfl
